@@ -158,3 +158,9 @@ impl<'a> Writer<'a> {
     // TODO: Add a `finalize` function that writes the demo length into the
     // original header.
 }
+
+#[cfg(kani)]
+mod verif_kani {
+    use super::*;
+    include!(concat!(env!("LIBTW2_VERIF_HARNESS"), "/demo_writer.rs"));
+}
